@@ -141,11 +141,22 @@ def probe_call(K, P=1, mp=False, orders=None, log=None, seed=99):
         res = fast_ticc.ticc_labels(series.copy(), window_size=W, num_clusters=K, sparsity_weight=0.11,
                                     label_switching_cost=1e6 if repop else 2.0, iteration_limit=4,
                                     num_processors=P, min_cluster_size=3 if repop else 2)
-        if repop and not any(ev["phase"] == "repop" and ev.get("out") is not ev.get("in") for ev in TRACER.events):
-            raise HarnessError("the repopulation probe did not repopulate")
+        global LAST_REPOPULATED
+        LAST_REPOPULATED = any(ev["phase"] == "repop" and ev.get("out") is not ev.get("in") for ev in TRACER.events)
         return res
     finally:
         os.environ.pop("CUPCAKE_ENABLE_MULTIPROCESSING", None)
+
+
+LAST_REPOPULATED = None
+
+
+def task_precondition(task):
+    """the repopulation probe, first thing in a fresh process, really repopulates (else the probe is useless)"""
+    from vlib import lib
+    lib.load("nojit")
+    res = guarded_probe("repop")
+    return (not isinstance(res, Exception)) and bool(LAST_REPOPULATED)
 
 
 def guarded_probe(*a, **k):
@@ -189,6 +200,13 @@ def task_sized(task):
     lib.load("nojit")
     (P, mp) = task
     return result_digest(sized_probe(P, mp))
+
+
+def task_repop_workers(task):
+    from vlib import lib
+    lib.load("nojit")
+    (P, mp) = task
+    return result_digest(guarded_probe("repop", P=P, mp=mp))
 
 
 def task_reference(task):
@@ -364,6 +382,9 @@ def run(ctx):
         acc.sample({"kind": "real", "K": K, "schedules": len(sched), "rounds": rounds,
                     "example": [list(map(str, s)) for s in sched[:3]]})
         # (3) repeats (also with a probe that repopulates, i.e. consumes the global Python generator)
+        if not realpool.fresh_map(task_precondition, [None])[0]:
+            raise HarnessError("the probe built to empty a cluster in round 0 (beta 1e6, min_cluster_size 3) completed "
+                               "without a repopulation in a fresh process: the repeat / history sub-checks would be vacuous")
         for KK in (K, "repop"):
             [(a, b), (c, _d)] = realpool.fresh_map(task_repeat, [(KK,), (KK,)])
             acc.n += 3
@@ -383,6 +404,15 @@ def run(ctx):
             acc.fail({"kind": "sized", "P": t[0], "multiprocessing": t[1]},
                      f"num_processors={t[0]} multiprocessing={'on' if t[1] else 'off'}: result differs from num_processors=1 "
                      f"(clusters of sizes 10/20/15)")
+    # (2c) worker count alone, on the probe that repopulates with the library's own draws from the global generator
+    outs = realpool.fresh_map(task_repop_workers, sized, jobs=8, timeout=120)
+    for t, o in zip(sized, outs):
+        acc.n += 1
+        acc.nontrivial += 1
+        if o != outs[0]:
+            acc.fail({"kind": "repop_workers", "P": t[0], "multiprocessing": t[1]},
+                     f"num_processors={t[0]} multiprocessing={'on' if t[1] else 'off'}: the run that repopulates (donor "
+                     f"points drawn from the seeded global generator) differs from num_processors=1")
     # (4) histories
     h = 3 if ctx.thorough else 2
     hists = [()]
@@ -408,7 +438,7 @@ def run(ctx):
         "exhaustive when (K!(K+1))^rounds <= 1300, else every script with <= 2 (K=3 quick: 1) non-default rounds; (2) real multiprocessing.Pool, default "
         "GMM path with seeded global RNGs: num_processors 1..8 x CUPCAKE_ENABLE_MULTIPROCESSING off/on x every "
         "feasible forced completion permutation (handshake), and for P in {K, 8} every (permutation, finished-before-the-parent-looks) script as on the virtual pool; a schedule "
-        "whose arrival log differs from its script is a harness error; (2b) num_processors 1..8 x multiprocessing off/on on a scripted K=3 probe with cluster sizes 10/20/15; (3) same seeds twice in one process and "
+        "whose arrival log differs from its script is a harness error; (2b) num_processors 1..8 x multiprocessing off/on on a scripted K=3 probe with cluster sizes 10/20/15; (2c) num_processors 1..8 x multiprocessing off/on on the probe that repopulates with the library's own donor draws; (3) same seeds twice in one process and "
         "across processes, for the ordinary probe and for a probe that repopulates (draws from the global Python generator); (4) every history of up to " + str(h) + " preceding calls from "
         + str(list(SHAPES)) + " before the probe, each history in its own fresh process. Oracle: complete result "
         "bitwise equal to the reference. non-trivial = non-default orders / non-empty histories")
@@ -440,6 +470,11 @@ def replay(ctx, case):
         acc.n = 1
         if outs[0] != outs[1]:
             acc.fail(case, "result depends on num_processors")
+    elif k == "repop_workers":
+        outs = realpool.fresh_map(task_repop_workers, [(1, False), (case["P"], case["multiprocessing"])])
+        acc.n = 1
+        if outs[0] != outs[1]:
+            acc.fail(case, "the run that repopulates depends on num_processors")
     elif k == "history":
         outs = realpool.fresh_map(task_history, [((),), (tuple(case["history"]),)])
         acc.n = 1
